@@ -370,6 +370,9 @@ def run(ctx):
                     src_t = [d for d in (dotted(x) for x in ast.walk(st.test)) if d and d.startswith("BondType.")]
                     if src_t:
                         pre[src_t[0]] = dotted(b.value)
+    ctx.ob("R3.dative-substitution", RDK, "to_mol", f"not use_dative_bonds: {sorted(pre.items())}",
+           pre == {"BondType.COORDINATION": "BondType.SINGLE"},
+           "without use_dative_bonds a coordination bond is written as a SINGLE bond (documented) and nothing else is replaced", tm.lineno)
     aromatic_ok = {"BondType.AROMATIC_SINGLE", "BondType.AROMATIC_DOUBLE", "BondType.AROMATIC_TRIPLE", "BondType.AROMATIC"}
     for flag in (False, True):
         for bt_, rk in sorted(b2r.items(), key=lambda x: str(x[0])):
@@ -589,6 +592,8 @@ def run(ctx):
 
 
 MUTANTS = [
+    Mutant("coordination-as-double", RDK, "        if not use_dative_bonds and bond_type == BondType.COORDINATION:\n            bond_type = BondType.SINGLE\n",
+           "        if not use_dative_bonds and bond_type == BondType.COORDINATION:\n            bond_type = BondType.DOUBLE\n", "R3.dative-substitution"),
     Mutant("key-name-two-characters", SDF, '            "name": re.compile(r"^<([a-zA-Z0-9][\\w.]*)>$"),\n', '            "name": re.compile(r"^<([a-zA-Z0-9][\\w.]+)>$"),\n',
            "R5.key-name-language"),
     Mutant("key-name-class-reordered", SDF, '            "name": re.compile(r"^<([a-zA-Z0-9][\\w.]*)>$"),\n', '            "name": re.compile(r"^<([0-9A-Za-z][.\\w]*)>$"),\n',
